@@ -495,3 +495,79 @@ def desugar_bool_returns(funcnode):
     ast.fix_missing_locations(new)
     _desugared[k] = (funcnode, new)
     return new
+
+
+# ---------------------------------------------------------------------- named conditions read at their tests
+_named_inlined = {}
+
+
+def inline_named_conditions(funcnode):
+    """A copy of the function in which a local that names a condition - `both = a.is_x() and b.is_x()`, assigned
+    once, outside any loop, from a boolean expression - is replaced by that expression where an `if` / `while` /
+    `assert` / conditional expression tests it.  The replacement is made only if nothing the expression mentions is
+    assigned after the definition (textually; parameters and names assigned before it only), so the test reads the
+    same values.  A rule that follows tests about its subject then sees them whether or not they were given a name."""
+    import copy
+    k = id(funcnode)
+    if k in _named_inlined:
+        return _named_inlined[k][1]
+    new = copy.deepcopy(funcnode)
+    defs, stores, in_loop = {}, {}, set()
+
+    def scan(stmts, loop):
+        for s in stmts:
+            if isinstance(s, (ast.FunctionDef, ast.AsyncFunctionDef, ast.ClassDef)):
+                continue
+            for n in ast.walk(s):
+                if isinstance(n, ast.Name) and isinstance(n.ctx, (ast.Store, ast.Del)):
+                    stores.setdefault(n.id, []).append(n.lineno)
+            if isinstance(s, ast.Assign) and len(s.targets) == 1 and isinstance(s.targets[0], ast.Name):
+                defs.setdefault(s.targets[0].id, []).append(s)
+                if loop:
+                    in_loop.add(s.targets[0].id)
+            for fld in ('body', 'orelse', 'finalbody'):
+                sub = getattr(s, fld, None)
+                if isinstance(sub, list) and sub and isinstance(sub[0], ast.stmt):
+                    scan(sub, loop or isinstance(s, (ast.For, ast.While)))
+            for h in getattr(s, 'handlers', []) or []:
+                scan(h.body, loop)
+    scan(new.body, False)
+    params = {a.arg for a in ast.walk(new.args) if isinstance(a, ast.arg)}
+    table = {}
+    for name, ds in defs.items():
+        if len(ds) != 1 or name in in_loop or len(stores.get(name, [])) != 1 or name in params:
+            continue
+        v = ds[0].value
+        if not (isinstance(v, (ast.BoolOp, ast.Compare)) or (isinstance(v, ast.UnaryOp) and isinstance(v.op, ast.Not)) or
+                (isinstance(v, ast.Call) and isinstance(v.func, ast.Attribute) and v.func.attr.startswith('is_') and not v.args)):
+            continue
+        line = ds[0].lineno
+        mentioned = {n.id for n in ast.walk(v) if isinstance(n, ast.Name)}
+        if any(l >= line for m in mentioned for l in stores.get(m, [])):
+            continue
+        table[name] = v
+
+    class Sub(ast.NodeTransformer):
+        def visit_Name(self, node):
+            if isinstance(node.ctx, ast.Load) and node.id in table:
+                return ast.copy_location(Sub().visit(copy.deepcopy(table[node.id])), node)
+            return node
+
+    class T(ast.NodeTransformer):
+        def visit_FunctionDef(self, node):
+            if node is not new:
+                return node
+            return self.generic_visit(node)
+
+        def visit_If(self, node):
+            self.generic_visit(node)
+            node.test = Sub().visit(node.test)
+            return node
+        visit_While = visit_IfExp = visit_Assert = visit_If
+    if table:
+        T().visit(new)
+        ast.fix_missing_locations(new)
+    else:
+        new = funcnode
+    _named_inlined[k] = (funcnode, new)
+    return new
